@@ -5,7 +5,7 @@
    convergence / callback decision sequence and every iteration budget. *)
 From Coq Require Import List Arith Bool Ring ZArith.
 From TLV Require Import Base.Shape Base.PyList Base.Tensor Base.BigSum Model.WarmStart Proofs.WarmStartProofs
-  Proofs.WarmStartProofs2.
+  Proofs.WarmStartProofs2 Proofs.WarmStartTucker Proofs.WarmStartP2.
 Import ListNotations.
 
 (* (i) the tensor represented by the initialisation, weights absorbed into the last factor *)
@@ -37,6 +37,45 @@ Theorem C14_init_weights_are_ones : forall (F : Type) (rI : F) (rmul : F -> F ->
   fst (init_cp rI rmul eqb R w fs) = ones rI R.
 Proof. exact init_cp_weights_ones. Qed.
 Print Assumptions C14_init_weights_are_ones.
+
+(* the same at the level of dense tensors (what the correspondence compares with cp_to_tensor) *)
+Theorem C14_absorb_last_dense : forall (F : Type) (rO rI : F) (radd rmul rsub : F -> F -> F) (ropp : F -> F),
+  ring_theory rO rI radd rmul rsub ropp (@eq F) ->
+  forall (R : nat) (w : list F) (fs : list (matrix (F := F))), fs <> [] ->
+  cp_dense rO rI radd rmul R (ones rI R) (absorb_last rmul w fs) = cp_dense rO rI radd rmul R w fs.
+Proof. exact cp_absorb_dense. Qed.
+Print Assumptions C14_absorb_last_dense.
+
+Theorem C14_init_dense : forall (F : Type) (rO rI : F) (radd rmul rsub : F -> F -> F) (ropp : F -> F),
+  ring_theory rO rI radd rmul rsub ropp (@eq F) ->
+  forall (eqb : F -> F -> bool), (forall x y, eqb x y = true <-> x = y) ->
+  forall (R : nat) (w : list F) (fs : list (matrix (F := F))), fs <> [] -> length w = R ->
+  cp_dense rO rI radd rmul R (fst (init_cp rI rmul eqb R (Some w) fs)) (snd (init_cp rI rmul eqb R (Some w) fs))
+  = cp_dense rO rI radd rmul R w fs.
+Proof. exact init_cp_dense. Qed.
+Print Assumptions C14_init_dense.
+
+(* an initialisation without weights is returned as it is *)
+Theorem C14_init_no_weights : forall (F : Type) (rI : F) (rmul : F -> F -> F)
+  (eqb : F -> F -> bool), (forall x y, eqb x y = true <-> x = y) ->
+  forall (R : nat) (fs : list (matrix (F := F))), init_cp rI rmul eqb R None fs = (ones rI R, fs).
+Proof. exact init_cp_none. Qed.
+Print Assumptions C14_init_no_weights.
+
+(* normalize_factors (commit 3de556b): the default False is the initialiser above; with True the start is cp_normalize of
+   it, the same tensor PROVIDED cp_normalize preserves the represented tensor (division by norms: a hypothesis here) *)
+Theorem C14_init_normalize_default : forall (F : Type) (rI : F) (rmul : F -> F -> F) (eqb : F -> F -> bool) normf R w
+  (fs : list (matrix (F := F))), init_cp_norm rI rmul eqb false normf R w fs = init_cp rI rmul eqb R w fs.
+Proof. exact @init_cp_norm_default. Qed.
+Print Assumptions C14_init_normalize_default.
+
+Theorem C14_init_normalize_partial : forall (F : Type) (rO rI : F) (radd rmul : F -> F -> F) (eqb : F -> F -> bool) normf R w
+  (fs : list (matrix (F := F))) idx,
+  (forall x idx, cp_entry rO rI radd rmul R (fst (normf x)) (snd (normf x)) idx = cp_entry rO rI radd rmul R (fst x) (snd x) idx) ->
+  forall b, cp_entry rO rI radd rmul R (fst (init_cp_norm rI rmul eqb b normf R w fs)) (snd (init_cp_norm rI rmul eqb b normf R w fs)) idx
+  = cp_entry rO rI radd rmul R (fst (init_cp rI rmul eqb R w fs)) (snd (init_cp rI rmul eqb R w fs)) idx.
+Proof. exact @init_cp_norm_represents. Qed.
+Print Assumptions C14_init_normalize_partial.
 
 (* re-expressing the initialisation with its weights absorbed gives the same initial state ... *)
 Theorem C14_init_absorbed_same_state : forall (F : Type) (rO rI : F) (radd rmul rsub : F -> F -> F) (ropp : F -> F),
@@ -102,19 +141,20 @@ Theorem C14_all_fixed_shortcut : forall (M W : Type) upd stop normf a n budget t
 Proof. exact @run_all_fixed_shortcut. Qed.
 Print Assumptions C14_all_fixed_shortcut.
 
-(* ... and without it: when no mode is left to update, a call that returns returns the initialisation ... *)
+(* ... the algorithms without a shortcut can be left without a mode to update only by a request that repeats the last
+   mode; then, IF the call returns (it raises when it needs the last MTTKRP), it returns the initialisation ... *)
 Theorem C14_all_fixed_partial : forall (M W : Type) upd stop normf a n fixed budget tol (s s' : st M W),
   (forall m, m < n -> In m (eff_fixed a n fixed)) ->
   run upd stop normf false a n fixed budget tol s = Ok s' -> s' = s.
 Proof. exact @run_nothing_to_update. Qed.
 Print Assumptions C14_all_fixed_partial.
 
-(* ... but non_negative_parafac_hals (default tol) RAISES instead of returning it (genuine defect) *)
-Theorem C14_hals_all_fixed_refuted : exists n fixed budget, (forall m, m < n -> In m fixed) /\
-  forall (M W : Type) upd stop normf normalize (s : st M W),
-  run upd stop normf normalize NNHals n fixed budget true s = Err.
-Proof. exact hals_all_fixed_raises. Qed.
-Print Assumptions C14_hals_all_fixed_refuted.
+(* ... and non_negative_parafac_hals, the one variant a duplicate-free request can leave without a mode to update,
+   returns the initialisation for every budget, tolerance and normalisation setting (repaired by commit c3946df) *)
+Theorem C14_hals_all_fixed : forall (M W : Type) upd stop normf normalize n fixed budget tol (s : st M W),
+  (forall m, m < n -> In m fixed) -> run upd stop normf normalize NNHals n fixed budget tol s = Ok s.
+Proof. exact @hals_all_fixed_returns. Qed.
+Print Assumptions C14_hals_all_fixed.
 
 (* normalize_factors=True is outside the statement for a reason: it rewrites fixed factors too *)
 Theorem C14_fixed_modes_normalize_refuted : exists upd stop normf (s s' : st nat unit),
@@ -125,7 +165,7 @@ Print Assumptions C14_fixed_modes_normalize_refuted.
 
 (* tucker(fixed_factors=...): the re-inserted objects are the supplied ones, the new ones keep their order *)
 Theorem C14_tucker_reinsert : forall (M : Type) (fixed : list nat) (fs : list M) (partial : list nat -> list M -> list M),
-  NoDup fixed -> (forall e, In e fixed -> e < length fs) -> length fixed < length fs ->
+  NoDup fixed -> (forall e, In e fixed -> e < length fs) ->
   (forall modes free, length (partial modes free) = length free) ->
   exists out, tucker_fixed_lists fixed fs partial = Ok out /\ length out = length fs /\
     (forall e d, In e fixed -> nth e out d = nth e fs d) /\
@@ -135,20 +175,80 @@ Theorem C14_tucker_reinsert : forall (M : Type) (fixed : list nat) (fs : list M)
 Proof. exact @tucker_reinsert_spec. Qed.
 Print Assumptions C14_tucker_reinsert.
 
-(* fixing every Tucker factor raises instead of returning the initialisation (genuine defect) *)
-Theorem C14_tucker_all_fixed_refuted : forall (M : Type) (fs : list M) partial,
-  tucker_fixed_lists (seq 0 (length fs)) fs partial = Err.
-Proof. exact @tucker_all_fixed_raises. Qed.
-Print Assumptions C14_tucker_all_fixed_refuted.
+(* fixing every Tucker factor returns the supplied Tucker tensor, whatever partial_tucker would do (repaired by b6b5914) *)
+Theorem C14_tucker_all_fixed : forall (F : Type) (zero : F) (add mul : F -> F -> F) pt (core : tensor F)
+  (fs : list (matrix (F := F))) (fixed : list nat),
+  (forall i, i < length fs -> In i fixed) -> tucker_fixed zero add mul core fs fixed pt = Ok (core, fs).
+Proof. exact @tucker_fixed_all_returns. Qed.
+Print Assumptions C14_tucker_all_fixed.
 
-(* tucker zero budget: the core is multiplied by F^T F for every fixed factor F -- a different tensor
-   unless F has orthonormal columns (genuine defect; witness over Z) *)
-Theorem C14_tucker_zero_budget_refuted : exists (core : tensor Z) (F0 F1 : list (list Z)),
-  let c1 := multi_mode_dot 0%Z Z.add Z.mul core [F0] [0] in
-  let c2 := multi_mode_dot_T 0%Z Z.add Z.mul c1 [F0] [0] in
-  multi_mode_dot 0%Z Z.add Z.mul c2 [F0; F1] [0; 1] <> multi_mode_dot 0%Z Z.add Z.mul core [F0; F1] [0; 1].
-Proof. exact tucker_zero_budget_counterexample. Qed.
+(* the whole function tucker(init=(core, fs), fixed_factors=fixed) for EVERY partial_tucker (every budget, tolerance,
+   SVD): it returns, and the factors of the fixed modes are the supplied objects *)
+Theorem C14_tucker_fixed_factors : forall (F : Type) (zero : F) (add mul : F -> F -> F)
+  (pt : tensor F -> list nat -> list (matrix (F := F)) -> tensor F * list (matrix (F := F)))
+  (core : tensor F) (fs : list (matrix (F := F))) (fixed : list nat),
+  NoDup fixed -> (forall e, In e fixed -> e < length fs) ->
+  (forall c modes free, length (snd (pt c modes free)) = length free) ->
+  exists c out, tucker_fixed zero add mul core fs fixed pt = Ok (c, out) /\ length out = length fs /\
+    forall e d, In e fixed -> nth e out d = nth e fs d.
+Proof. exact @tucker_fixed_keeps_factors. Qed.
+Print Assumptions C14_tucker_fixed_factors.
+
+(* absorbing factors with orthonormal columns into the core and re-extracting them with the transposes is the
+   identity: any commutative ring, any order, any number of (distinct) modes *)
+Theorem C14_tucker_absorb_extract : forall (F : Type) (rO rI : F) (radd rmul rsub : F -> F -> F) (ropp : F -> F),
+  ring_theory rO rI radd rmul rsub ropp (@eq F) ->
+  forall (Ms : list (matrix (F := F))) (modes : list nat) (t : tensor F),
+  wf t -> NoDup modes -> length Ms = length modes ->
+  (forall A m, In (A, m) (combine Ms modes) ->
+     m < length (shape t) /\ ncols A = nth m (shape t) 0 /\ orthonormal_cols rO rI radd rmul (ncols A) A) ->
+  multi_mode_dot_T rO radd rmul (multi_mode_dot rO radd rmul t Ms modes) Ms modes = t.
+Proof. exact mmd_absorb_extract. Qed.
+Print Assumptions C14_tucker_absorb_extract.
+
+(* tucker zero budget: returns exactly the initialisation WHEN the fixed factors have orthonormal columns ... *)
+Theorem C14_tucker_zero_budget_partial : forall (F : Type) (rO rI : F) (radd rmul rsub : F -> F -> F) (ropp : F -> F),
+  ring_theory rO rI radd rmul rsub ropp (@eq F) ->
+  forall (core : tensor F) (fs : list (matrix (F := F))) (fixed : list nat),
+  NoDup fixed -> (forall e, In e fixed -> e < length fs) ->
+  wf core -> length (shape core) = length fs ->
+  (forall e, In e fixed -> ncols (nth e fs []) = nth e (shape core) 0 /\
+                           orthonormal_cols rO rI radd rmul (ncols (nth e fs [])) (nth e fs [])) ->
+  tucker_fixed rO radd rmul core fs fixed (@pt_zero F) = Ok (core, fs).
+Proof. exact tucker_zero_budget_orthonormal. Qed.
+Print Assumptions C14_tucker_zero_budget_partial.
+
+(* ... and a different tensor otherwise: the core is multiplied by F^T F for every fixed factor F (genuine defect;
+   witness over Z on the whole-function model) *)
+Theorem C14_tucker_zero_budget_refuted : exists (core : tensor Z) (fs : list (list (list Z))) (fixed : list nat) c' fs',
+  NoDup fixed /\ (forall e, In e fixed -> e < length fs) /\
+  tucker_fixed 0%Z Z.add Z.mul core fs fixed (@pt_zero Z) = Ok (c', fs') /\
+  tucker_entry_dense 0%Z Z.add Z.mul c' fs' <> tucker_entry_dense 0%Z Z.add Z.mul core fs.
+Proof. exact tucker_fixed_zero_budget_counterexample. Qed.
 Print Assumptions C14_tucker_zero_budget_refuted.
+
+(* non_negative_tucker / non_negative_tucker_hals start from |init|: the initialisation itself when it is entrywise
+   non-negative (fabs x = x) ... *)
+Theorem C14_ntd_init_partial : forall (F : Type) (fabs : F -> F) (core : tensor F) (fs : list (matrix (F := F))),
+  (forall x, In x (data core) -> fabs x = x) ->
+  (forall A, In A fs -> forall row, In row A -> forall x, In x row -> fabs x = x) ->
+  tucker_init true fabs core fs = (core, fs).
+Proof. exact @tucker_init_feasible. Qed.
+Print Assumptions C14_ntd_init_partial.
+
+(* ... not otherwise (deliberate feasibility projection; known finding) ... *)
+Theorem C14_ntd_init_refuted : exists (core : tensor Z) (fs : list (list (list Z))),
+  tucker_init true Z.abs core fs <> (core, fs).
+Proof. exact tucker_init_abs_counterexample. Qed.
+Print Assumptions C14_ntd_init_refuted.
+
+(* ... and a fixed mode of non_negative_tucker_hals returns |supplied factor| after any number of sweeps *)
+Theorem C14_ntd_fixed_factor : forall (F : Type) (fabs : F -> F) (W : Type) upd stop normf n fixed budget tol (w : W)
+  (fs : list (matrix (F := F))) s' m,
+  run upd stop normf false NTDHals n fixed budget tol (mkst w (map (abs_mat fabs) fs)) = Ok s' ->
+  In m fixed -> m <> n - 1 -> nth m (facs s') [] = abs_mat fabs (nth m fs []).
+Proof. exact @ntd_fixed_factor. Qed.
+Print Assumptions C14_ntd_fixed_factor.
 
 (* PARAFAC2 from a CP tensor: with Q, Rm the recorded answer of qr(B) (contract Q Rm = B) the
    Parafac2Tensor (w; A, Rm, C; P_i = Q) represents the CP tensor (w; A, B, C) *)
@@ -160,6 +260,54 @@ Theorem C14_parafac2_from_cp : forall (F : Type) (rO rI : F) (radd rmul rsub : F
   p2_entry rO radd rmul R w A Rm C P i j k = cp_entry rO rI radd rmul R w [A; B; C] [i; j; k].
 Proof. exact p2_from_cp. Qed.
 Print Assumptions C14_parafac2_from_cp.
+
+(* PARAFAC2: weights absorbed into B represent the same tensor (zero budget: the two forms differ only in form) *)
+Theorem C14_parafac2_absorb_entry : forall (F : Type) (rO rI : F) (radd rmul rsub : F -> F -> F) (ropp : F -> F),
+  ring_theory rO rI radd rmul rsub ropp (@eq F) ->
+  forall (R : nat) (w : list F) (A B C : matrix (F := F)) (P : list (matrix (F := F))) (i j k : nat),
+  p2_entry rO radd rmul R w A B C P i j k = p2_entry rO radd rmul R (ones rI R) A (scale_cols rmul B w) C P i j k.
+Proof. exact p2_absorb_entry. Qed.
+Print Assumptions C14_parafac2_absorb_entry.
+
+Theorem C14_parafac2_zero_budget : forall (F : Type) (rI : F) (rmul : F -> F -> F) (PT : Type) upd stop normf normalize
+  (R it : nat) (s : p2st F PT), p2_iterate rI rmul upd stop normf normalize R 0 it s = s.
+Proof. exact @p2_zero_budget. Qed.
+Print Assumptions C14_parafac2_zero_budget.
+
+(* the main loop from (w; A,B,C; P) and from (ones; A, B diag(w), C; P): identical for every positive budget, every
+   update (projections, inner ALS, line search), every stopping decision and normalisation setting *)
+Theorem C14_parafac2_same_iterates : forall (F : Type) (rO rI : F) (radd rmul rsub : F -> F -> F) (ropp : F -> F),
+  ring_theory rO rI radd rmul rsub ropp (@eq F) ->
+  forall (PT : Type) upd stop normf normalize (R : nat) (w : list F) (fs : list (matrix (F := F))) (P : PT) (budget it : nat),
+  length w = R -> (forall row, In row (nth 1 fs []) -> R <= length row) -> 0 < budget ->
+  p2_iterate rI rmul upd stop normf normalize R budget it (mkp2 (ones rI R) (absorb_at rmul 1 w fs) P)
+  = p2_iterate rI rmul upd stop normf normalize R budget it (mkp2 w fs P).
+Proof. exact p2_same_iterates. Qed.
+Print Assumptions C14_parafac2_same_iterates.
+
+(* initialisation: a Parafac2Tensor is taken as it is, a CP tensor becomes (w; A, R, C; [Q]*I) which represents it
+   (contract of qr: Q R = B), and in both cases a decomposition of another rank is rejected *)
+Theorem C14_parafac2_init_p2_unchanged : forall (F : Type) (rI : F) qr (rank : nat) (w : list F)
+  (fs P : list (matrix (F := F))) s,
+  p2_init rI qr rank (FromP2 (Some w) fs P) = Ok s -> s = mkp2 w fs P.
+Proof. exact @p2_init_p2_unchanged. Qed.
+Print Assumptions C14_parafac2_init_p2_unchanged.
+
+Theorem C14_parafac2_init_rank : forall (F : Type) (rI : F) qr (rank : nat) (init : p2init F) s,
+  p2_init rI qr rank init = Ok s -> rank_of (p2f s) = rank.
+Proof. exact @p2_init_rank. Qed.
+Print Assumptions C14_parafac2_init_rank.
+
+Theorem C14_parafac2_init_cp_represents : forall (F : Type) (rO rI : F) (radd rmul rsub : F -> F -> F) (ropp : F -> F),
+  ring_theory rO rI radd rmul rsub ropp (@eq F) ->
+  forall qr (R : nat) (w : list F) (A B C : matrix (F := F)) s,
+  (forall jj r, r < R -> bigsum F rO radd R (fun t => rmul (mget rO (fst (qr B)) jj t) (mget rO (snd (qr B)) t r)) = mget rO B jj r) ->
+  p2_init rI qr R (FromCP (Some w) [A; B; C]) = Ok s ->
+  exists Rm : matrix (F := F), p2f s = [A; Rm; C] /\ p2w s = w /\
+    forall i j k, i < length A ->
+      p2_entry rO radd rmul R (p2w s) A Rm C (p2P s) i j k = cp_entry rO rI radd rmul R w [A; B; C] [i; j; k].
+Proof. exact p2_init_cp_represents. Qed.
+Print Assumptions C14_parafac2_init_cp_represents.
 
 (* non-vacuity: hypotheses are satisfiable and the model computes *)
 Example C14_nonvacuous_absorb :
@@ -174,5 +322,45 @@ Example C14_nonvacuous_skeleton :
   run (fun it m (s : st (list nat) unit) => nth m (facs s) [] ++ [it]) (fun _ _ => false) (fun s => s) false
       Parafac 3 [1] 2 true (mkst tt [[];[];[]]) = Ok (mkst tt [[0;1]; []; [0;1]]) /\
   modes_list Parafac 3 [0;2] = [1;2] /\ modes_list NNHals 3 [0;2] = [1] /\ modes_list Parafac 3 [2;2] = [0;1] /\
+  (* every mode fixed: HALS-CP returns the start for a positive budget; a request repeating the last mode leaves
+     constrained_parafac without a mode and it raises *)
+  run (fun it m (s : st (list nat) unit) => nth m (facs s) [] ++ [it]) (fun _ _ => false) (fun s => s) false
+      NNHals 2 [1;0] 3 true (mkst tt [[];[]]) = Ok (mkst tt [[];[]]) /\
+  run (fun it m (s : st (list nat) unit) => nth m (facs s) [] ++ [it]) (fun _ _ => false) (fun s => s) false
+      Constrained 2 [0;1;1] 1 true (mkst tt [[];[]]) = Err /\
+  tucker_fixed_lists [1;0] [10;11] (fun _ free => map (fun x => x + 100) free) = Ok [10;11] /\
   tucker_fixed_lists [2;0] [10;11;12;13] (fun _ free => map (fun x => x + 100) free) = Ok [10;111;12;113].
+Proof. vm_compute. repeat split. Qed.
+
+Example C14_nonvacuous_tucker :
+  (* a signed partial permutation has orthonormal columns; fixing it (and a second one, listed out of order) returns
+     the initialisation at zero budget, a non-orthonormal factor does not; the hypotheses of the partial theorem hold *)
+  let core := mk [2; 2; 2] [1; -2; 3; 0; -1; 2; 2; 1]%Z in
+  let P0 := [[0; -1]; [1; 0]; [0; 0]]%Z in let P2 := [[0; 1]; [0; 0]; [-1; 0]]%Z in
+  let G := [[1; 2]; [0; 1]; [1; 0]; [2; 2]]%Z in
+  tucker_fixed 0%Z Z.add Z.mul core [P0; G; P2] [2; 0] (@pt_zero Z) = Ok (core, [P0; G; P2]) /\
+  orthonormal_cols 0%Z 1%Z Z.add Z.mul 2 P0 /\ orthonormal_cols 0%Z 1%Z Z.add Z.mul 2 P2 /\ ~ orthonormal_cols 0%Z 1%Z Z.add Z.mul 2 G /\
+  tucker_fixed 0%Z Z.add Z.mul core [P0; G; P2] [1] (@pt_zero Z)
+    = Ok (mk [2; 2; 2] [24; -12; 33; -12; 6; 18; 12; 21]%Z, [P0; G; P2]) /\
+  tucker_fixed 0%Z Z.add Z.mul core [P0; G; P2] [2; 0; 1] (@pt_zero Z) = Ok (core, [P0; G; P2]) /\
+  tucker_init true Z.abs core [P0] = (mk [2; 2; 2] [1; 2; 3; 0; 1; 2; 2; 1]%Z, [[[0; 1]; [1; 0]; [0; 0]]%Z]).
+Proof.
+  assert (Hlt : forall i, i < 2 -> i = 0 \/ i = 1) by (intros i Hi; destruct i as [|[|i]]; auto; exfalso; inversion Hi as [|? H1]; inversion H1 as [|? H2]; inversion H2).
+  intros core P0 P2 G. split; [vm_compute; reflexivity|].
+  split; [intros i j Hi Hj; destruct (Hlt i Hi) as [->| ->]; destruct (Hlt j Hj) as [->| ->]; reflexivity|].
+  split; [intros i j Hi Hj; destruct (Hlt i Hi) as [->| ->]; destruct (Hlt j Hj) as [->| ->]; reflexivity|].
+  split; [intros H; specialize (H 0 0 (Nat.lt_0_succ 1) (Nat.lt_0_succ 1)); vm_compute in H; discriminate|].
+  vm_compute. repeat split.
+Qed.
+
+Example C14_nonvacuous_parafac2 :
+  (* the absorb step, the loop on a recording update, and the two initialisation routes *)
+  let upd := fun (it : nat) (s : p2st Z (list nat)) => (p2f s, p2P s ++ [it]) in
+  p2_iterate 1%Z Z.mul upd (fun _ _ => false) (fun s => s) false 2 2 0 (mkp2 [2; -3]%Z [[[1; 1]]; [[1; 2]; [3; 4]]; [[1; 1]]]%Z [])
+    = mkp2 [1; 1]%Z [[[1; 1]]; [[2; -6]; [6; -12]]; [[1; 1]]]%Z [0; 1] /\
+  p2_iterate 1%Z Z.mul upd (fun _ _ => false) (fun s => s) false 2 2 0 (mkp2 [1; 1]%Z [[[1; 1]]; [[2; -6]; [6; -12]]; [[1; 1]]]%Z [])
+    = mkp2 [1; 1]%Z [[[1; 1]]; [[2; -6]; [6; -12]]; [[1; 1]]]%Z [0; 1] /\
+  p2_init 1%Z (fun B => ([[1; 0]; [0; 1]; [0; 0]], [[2; 1]; [0; 3]])%Z) 2 (FromCP (Some [2; -3]%Z) [[[1; 1]]; [[2; 1]; [0; 3]; [0; 0]]; [[1; 1]]]%Z)
+    = Ok (mkp2 [2; -3]%Z [[[1; 1]]; [[2; 1]; [0; 3]]; [[1; 1]]]%Z [[[1; 0]; [0; 1]; [0; 0]]%Z]) /\
+  p2_init 1%Z (fun B => (B, B)) 3 (FromP2 (Some [2; -3]%Z) [[[1; 1]]; [[1; 2]; [3; 4]]; [[1; 1]]]%Z []) = Err.
 Proof. vm_compute. repeat split. Qed.
